@@ -281,6 +281,20 @@ fn run_csv(cfg: i64, input: &[u8], bounds: &[usize], bs: usize, variant: i64) ->
     // decode(fill_buf()) until it returns 0, then flush; an empty buffer signals end of input, so
     // empty chunks are never handed to the decoder before the end (BufRead contract).
     let mut dec = csv_builder(cfg, bs).build_decoder();
+    if variant == 2 {
+        // EXPERIMENT ONLY (not generated): hand every chunk, including empty ones, to decode
+        for c in cut(input, bounds).into_iter().chain(std::iter::once(&[][..])) {
+            let mut rest = c;
+            loop {
+                let n = match dec.decode(rest) { Ok(n) => n, Err(e) => return sink.done(arrow_err(&e), Some(&schema)) };
+                rest = &rest[n..];
+                if n == 0 || dec.capacity() == 0 { match dec.flush() { Ok(Some(b)) => sink.push(&b), Ok(None) => {}, Err(e) => return sink.done(arrow_err(&e), Some(&schema)) } }
+                if rest.is_empty() { break; }
+            }
+        }
+        loop { match dec.flush() { Ok(Some(b)) => sink.push(&b), Ok(None) => break, Err(e) => return sink.done(arrow_err(&e), Some(&schema)) } }
+        return sink.done(0, Some(&schema));
+    }
     let mut rd = ChunkedReader::new(cut(input, bounds));
     let mut guard = 0usize;
     loop {
@@ -994,7 +1008,14 @@ fn gen_ipc(tier: &str, r: &mut Rng, emit: &mut dyn FnMut(Case), count: usize) {
         let with_eos = !r.chance(1, 5);
         let (mut bytes, tag) = ipc_stream(r, with_eos);
         let kind = if i < 4 { 0 } else { r.below(8) };
-        let mut pull = with_eos;
+        // KNOWN-FINDING candidate (arrow-ipc/src/reader/stream.rs:160,210): a message whose bodyLength
+        // is 0 (the schema, a batch without buffers) is only processed when the NEXT bytes arrive
+        // (`while !buffer.is_empty()`), so a stream that ends without the optional EOS marker right
+        // after such a message loses it and finish() fails, while StreamReader returns it. Witness:
+        // StreamWriter::try_new(.., {a: Int32}) + flush, no finish(): decoder.schema() stays None and
+        // finish() = Err("Unexpected End of Stream"); StreamReader: schema, 0 batches, Ok.
+        // The pull comparison skips exactly: no EOS and last message with empty body.
+        let mut pull = with_eos || walk_ipc(&bytes).last().map(|f| f.body_len > 0).unwrap_or(false);
         match kind {
             0 | 1 | 2 => {}
             3 => { let k = r.below(bytes.len() + 1); bytes.truncate(k); pull = false; }
